@@ -1,5 +1,159 @@
 import Driver.Common
-/-! Driver for C13 (stub: not built yet). -/
-def main (_args : List String) : IO UInt32 := do
-  IO.eprintln "C13: driver not implemented"
-  return 2
+import CoapVerif.Model.Tables
+import CoapVerif.Spec.Quiescence
+/-!
+Driver for C13.
+`model`: translates a history line into events of `Model.Tables` (sites looked up by name in the generated
+shape), ends every exchange, runs housekeeping past every deadline and prints the final sizes the model is left with
+(`final:tok,mid,cache,lock,bwR,bwS,obs,lim`) — by `quiescent_empty` nothing but live observations.
+`judge`: `<history> | <observed line>` → `ok` / `violates <clause>` by `Spec.Quiescence.judge`.
+`classes`: prints the class of every table (from the generated shape), for the evidence file.
+-/
+namespace Driver.C13
+open CoapVerif CoapVerif.Model.Tables
+
+def siteOf (fn table : String) : Nat := (sites.findIdx? (fun s => s.func == fn && s.table == table)).getD 9999
+
+def strKey (s : String) : Nat := s.foldl (fun a c => a * 131 + c.toNat) 7
+
+/-- is the op about exchange `id`? -/
+def mentions (id : String) (f : List String) : Bool :=
+  match f with
+  | op :: i :: _ => i == id && ["resp", "blk2", "cont", "bad", "ack", "rst", "pong", "cancel", "obscancel"].contains op
+  | _ => false
+
+/-- the registration of observation `id` (deadline `dl` seconds, 0 = none) succeeds iff the first op about it — before
+    its deadline has passed in virtual time, before `end`/`close` — is a small 2.05/2.03 response (piggybacked on the
+    datagram transport); it is live iff that response carries an Observe option -/
+def obsOutcome (udp : Bool) (id : String) (dl : Nat) (rest : List (List String)) : Bool × Bool :=   -- (call ok, live)
+  let rec go (elapsed : Nat) : List (List String) → Bool × Bool
+    | [] => (false, false)
+    | f :: fs =>
+      if dl > 0 && elapsed ≥ dl * 1000 then (false, false) else
+      match f with
+      | ["sleep", ms] => go (elapsed + ms.toNat?.getD 0) fs
+      | ["end"] => (false, false)
+      | ["close"] => (false, false)
+      | ["resp", i, kind, code, blen, seq] =>
+        if i != id then go elapsed fs else
+        let okCode := code == "69" || code == "67"
+        let direct := !udp || kind == "pig"
+        if okCode && direct && (blen.toNat?.getD 99) ≤ 16 then (true, seq != "-") else (false, false)
+      | _ => if mentions id f then (false, false) else go elapsed fs
+  go 0 rest
+
+def events (udp bw : Bool) (ops : List (List String)) : List TEvent := Id.run do
+  let mut evs : List TEvent := []
+  let mut rest := ops
+  let mut owners : List Nat := []
+  for f in ops do
+    rest := rest.drop 1
+    match f with
+    | ["do", id, tokid, path, typ, _blen, _dl] =>
+      let id := id.toNat?.getD 0
+      let tk := tokid.toNat?.getD 0
+      owners := id :: owners
+      evs := evs ++ [.insert (siteOf "LimitParallelRequests.acquireEndpoint" "endpointQueues") (strKey path) id 0]
+      if bw then evs := evs ++ [.insert (siteOf "BlockWise.Do" "sendingMessagesCache") tk id 3]
+      evs := evs ++ [.insert (siteOf "Conn.doInternal" "tokenHandlerContainer") tk id 0]
+      if udp && typ == "con" then evs := evs ++ [.insert (siteOf "Conn.prepareWriteMessage" "midHandlerContainer") (100000 + id) id 0]
+    | ["obs", ids, path, _dl] =>
+      let id := ids.toNat?.getD 0
+      evs := evs ++ [.insert (siteOf "LimitParallelRequests.acquireEndpoint" "endpointQueues") (strKey path) id 0,
+                     .insert (siteOf "Handler.NewObservation" "observations") id id 0]
+      if udp then evs := evs ++ [.insert (siteOf "Conn.prepareWriteMessage" "midHandlerContainer") (100000 + id) id 0]
+      let (ok, live) := obsOutcome udp ids (_dl.toNat?.getD 0) rest
+      evs := evs ++ [.finish id ok]
+      if ok && !live then evs := evs ++ [.cancelLive id]     -- the peer does not support observe: cleaned up at once
+    | ["obscancel", id] =>
+      let id := id.toNat?.getD 0
+      evs := evs ++ [.cancelLive id]
+    | ["ping", id, _] =>
+      let id := id.toNat?.getD 0
+      owners := id :: owners
+      evs := evs ++ [.insert (if udp then siteOf "Conn.AsyncPing" "midHandlerContainer" else siteOf "Conn.AsyncPing" "tokenHandlerContainer") (200000 + id) id 0]
+    | ["write", id, typ] =>
+      let id := id.toNat?.getD 0
+      owners := id :: owners
+      if udp && typ == "con" then evs := evs ++ [.insert (siteOf "Conn.prepareWriteMessage" "midHandlerContainer") (100000 + id) id 0]
+    | ["req", n, typ, rlen] =>
+      let n := n.toNat?.getD 0
+      if udp && typ == "con" then evs := evs ++ [.insert (siteOf "messageCache.Store" "c") (50000 + n) (300000 + n) 247]
+      if bw && (rlen.toNat?.getD 0) ≥ 16 then
+        evs := evs ++ [.insert (siteOf "BlockWise.startSendingMessage" "sendingMessagesCache") (300000 + n) (300000 + n) 3]
+    | ["up", n, _, _] =>
+      let n := n.toNat?.getD 0
+      if bw then evs := evs ++ [.insert (siteOf "BlockWise.getCachedReceivedMessage" "receivingMessagesCache") (400000 + n) (400000 + n) 3]
+    | _ => pure ()
+  -- every exchange ends; housekeeping runs past every deadline
+  for o in owners do
+    evs := evs ++ [.finish o false]
+  return evs ++ [.tick 1000000]
+
+def finalSizes (s : TState) : String :=
+  let t := tableSize s
+  s!"final:{t "tokenHandlerContainer"},{t "midHandlerContainer"},{t "c"},{t "ma"},{t "receivingMessagesCache"},{t "sendingMessagesCache"},{t "observations"},{t "endpointQueues"}"
+
+def model (line : String) : String :=
+  match words line with
+  | "scn" :: tr :: bw :: _ :: _ :: ops =>
+    let evs := events (tr == "udp") (bw == "1") (ops.map (·.splitOn ":"))
+    finalSizes (trun evs)
+  | ["disc", _] => "final:0,0"
+  | _ => "bad-op"
+
+open CoapVerif.Spec.Quiescence in
+def parsePoint (seg : String) : Option (Sizes × Live) :=
+  match seg.splitOn "/" with
+  | [a, b] =>
+    match (a.splitOn ",").map (·.toNat?), (b.splitOn ",").map (·.toNat?) with
+    | [some t, some m, some c, some l, some br, some bs, some o, some q], [some ca, some pi, some wr, some lo] =>
+      some (⟨t, m, c, l, br, bs, o, q⟩, ⟨ca, pi, wr, lo⟩)
+    | _, _ => none
+  | _ => none
+
+def judgeLine (line : String) : String :=
+  match line.splitOn " | " with
+  | [inp, obs] =>
+    let obs := obs.trimAscii.toString
+    if obs.contains "panic" then "violates no-crash" else
+    match words inp with
+    | "scn" :: _ =>
+      let segs := obs.splitOn ";"
+      match segs.reverse with
+      | last :: restRev =>
+        if !last.startsWith "final:" then "violates unparsable-observation" else
+        match parsePoint (last.drop 6).toString, restRev.reverse.mapM parsePoint with
+        | some fin, some pts =>
+          match Spec.Quiescence.judge pts fin with
+          | none => "ok"
+          | some c => s!"violates {c}"
+        | _, _ => "violates unparsable-observation"
+      | [] => "violates unparsable-observation"
+    | ["disc", _] =>
+      if obs.startsWith "skip" then "ok"
+      else if (obs.splitOn " ").any (· == "final:0,0") then "ok" else "violates leak:discovery-tables"
+    | _ => "bad-op"
+  | _ => "bad-op"
+
+def classes : String :=
+  let names := ["tokenHandlerContainer", "midHandlerContainer", "c", "ma", "receivingMessagesCache", "sendingMessagesCache",
+    "observations", "endpointQueues", "multicastRequests", "multicastHandler"]
+  String.intercalate " " (names.map fun n =>
+    let cls := (sites.filter (·.table == n)).map (fun s => match classify s.removal with
+      | some .bracket => "bracket" | some .expiring => "expiring" | some .bracketExpiring => "bracket+expiring"
+      | some .live => "live" | none => "NONE")
+    s!"{n}={String.intercalate "/" cls}")
+
+end Driver.C13
+
+def main (args : List String) : IO UInt32 := do
+  let stdin ← IO.getStdin
+  let stdout ← IO.getStdout
+  match args with
+  | ["model"] => Driver.forLines stdin fun l => stdout.putStrLn (Driver.C13.model l)
+  | ["judge"] => Driver.forLines stdin fun l => stdout.putStrLn (Driver.C13.judgeLine l)
+  | ["classes"] => stdout.putStrLn Driver.C13.classes
+  | _ => IO.eprintln "usage: drv_c13 model|judge|classes"; return 2
+  stdout.flush
+  return 0
